@@ -446,6 +446,11 @@ def mergecase_coq(c):
     """Coq term of a merge case. Sorted merge: ascending cases go to merge_k, descending ones unchanged to merge_kd."""
     st = c["stream"]
     desc = st["desc"]
+    if st["kind"] == "sortappend":
+        # SortAppendTransform orders by (group, time, measurement): the measurement index is the first cell of the model row
+        enc = lambda r: "(%s, %s)" % (coq_z(r["g"] * 100000 + r["t"]), coq_cells([r.get("in", 0)] + list(r["c"])))
+        ins = [[enc(dict(r, **{"in": k})) for r in i] for k, i in enumerate(st["inputs"])]
+        return "(%s, %s)" % (coq_list([coq_list(i) for i in ins]), coq_list([enc(r) for r in c["got"]]))
     if st["kind"] == "sortmerge":
         enc = lambda r: mrow_arow(r, r["g"] * 100000 + r["t"])
         ins = [[enc(r) for r in i] for i in st["inputs"]]
@@ -482,7 +487,7 @@ def op_more(ck, out, coq_ok):
         for k in groups:
             if l.startswith('{"%s"' % k):
                 groups[k].append(json.loads(l)[k])
-    names = {"aggcase": "StreamAggregateTransform", "limitcase": "LimitTransform", "mergecase": "MergeTransform/SortedMergeTransform"}
+    names = {"aggcase": "StreamAggregateTransform", "limitcase": "LimitTransform", "mergecase": "MergeTransform/SortedMergeTransform/SortAppendTransform"}
     cov = {}
     for k, cases in groups.items():
         if not cases:
@@ -524,7 +529,7 @@ def op_more(ck, out, coq_ok):
     ua = uniq(groups["aggcase"], lambda c: c["cut"])
     ul = uniq(groups["limitcase"], lambda c: c["cut"])
     okm = [c for c in groups["mergecase"] if not c.get("fail")]
-    sm = [c for c in okm if c["stream"]["kind"] == "sortmerge"]
+    sm = [c for c in okm if c["stream"]["kind"] in ("sortmerge", "sortappend")]
     km = [c for c in okm if c["stream"]["kind"] == "merge"]
     # canaries: a copy of the first case with one more row in the expected / observed output - must be reported
     if ua:
@@ -579,6 +584,8 @@ FINDING_TEXT = {
                                        "(the missing value is cast to false), although the column is shown as null and `f = true` matches nothing",
     "C08-executor-panic-swallowed": "a panic of a processor is recovered by PipelineExecutor.work, which reports success: Execute returns nil and the "
                                     "statement answers with the rows produced so far (Crashed() is never consulted)",
+    "C08-columnstore-rowfilter-operand-order": "column-store row filter: a condition whose operator has a compound RIGHT operand evaluated after two comparisons "
+                                               "were left pending is computed over the wrong operands (A AND (B OR (C OR D)) as (A OR B) AND (C OR D))",
     "C08-read-error-swallowed": "a failed read of a data file during an aggregate query (or of a chunk-meta block during any query) is logged or "
                                 "taken for 'cursor exhausted': the statement succeeds with the rows of one series / file missing",
     "C08-desc-agg-overlapping-files": "descending aggregate (time buckets or field filter) over overlapping sources (out-of-order files / memtable): "
@@ -669,7 +676,7 @@ def main(ck):
                               "Go harness cmd/c08 (generator, reference evaluator ref.go, canonicaliser), python driver props/C08/run.py",
                               "ts-server HTTP API (/write, /query, /debug/ctrl) as the observation interface"]
     ck.coq_audit([PID])
-    ok = ck.coq_build(["C08/Proofs.vo", "C08/PipeProofs.vo", "C08/Corr.vo", "C08/Props.vo", "C08/Refuted.vo"])
+    ok = ck.coq_build(["C08/Proofs.vo", "C08/DescMerge.vo", "C08/Rpn.vo", "C08/PipeProofs.vo", "C08/Corr.vo", "C08/Props.vo", "C08/Refuted.vo"])
     if ok:
         ck.coq_props(["C08/Props.v", "C08/Refuted.v"])
     server = ck.go_build_repo("./app/ts-server", "ts-server")
@@ -710,6 +717,26 @@ def main(ck):
         return
     ck.log("harness: %d data sets, %d queries, %d query executions" % (len(datasets), len(cases), sum(c["nconfigs"] for c in cases)))
 
+    # ---- column-store stage: condition trees (cs.go)
+    cs = [json.loads(l)["cscase"] for l in out.splitlines() if l.startswith('{"cscase"')]
+    cserr = [json.loads(l)["cserror"] for l in out.splitlines() if l.startswith('{"cserror"')]
+    if not ck.replay:
+        if cserr or not cs:
+            ck.broken.append("column-store stage did not run: %s" % (cserr or "no cscase lines"))
+        csbad = [c for c in cs if c.get("fail")]
+        # signature: the two-stack discipline does not compute the condition's own tree (structural, decidable on the
+        # statement); whether the answer is exactly the twin's evaluation is recorded as evidence only (the slot the real
+        # code puts a new bitmap in makes some deeper shapes come out differently again)
+        csknown = [c for c in csbad if c.get("two_stack_differs") and finding_open(ck, "C08-columnstore-rowfilter-operand-order")]
+        if csknown:
+            ck.known_finding("C08-columnstore-rowfilter-operand-order", FINDING_TEXT["C08-columnstore-rowfilter-operand-order"])
+        for c in sorted([c for c in csbad if c not in csknown], key=lambda c: len(c["sql"]))[:1]:
+            ck.violation({"kind": "direct-oracle-columnstore", "what": "column-store measurement t1 (600 generated rows, flushed): the statement returned %d ids, the "
+                          "reference evaluation of the condition tree %d (%s)" % (c["got"], c["want"], c.get("err") or "missing %s extra %s" % (c.get("missing"), c.get("extra"))),
+                          "cscase": c}, tag="cs")
+        ck.cov["column_store_conditions"] = {"cases": len(cs), "failing": len(csbad), "failing_known": len(csknown),
+                                             "shapes_where_two_stack_differs": sum(1 for c in cs if c.get("two_stack_differs")),
+                                             "failing_answers_equal_to_the_two_stack_twin": sum(1 for c in csbad if c.get("is_two_stack_answer"))}
     # ---- direct oracle verdicts
     known_counts = {}
     unexplained = []
